@@ -120,13 +120,10 @@ def coq_eval_file(prop: str, name: str, text: str, timeout: int = 600) -> tuple[
 _BAD_RE = re.compile(r"bad_(\w+)\s*=\s*(\[[^\]]*\])", re.S)
 
 
-def coq_bad_indices(prop: str, name: str, header: str, groups: list[tuple[str, str, str, list[str]]],
-                    timeout: int = 900) -> dict[str, list[int]]:
-    """groups: (group_name, case_type, check_fun_term, [case literals]).
-    Emits for each group  bad_<g> := indices i where  check case_i = false  and returns them.
-    Raises CoqError if the file does not compile (a broken correspondence)."""
+def _coq_bad_one(prop, name, header, pieces, timeout):
+    """pieces: [(label, case_type, check, [literals])] -> {label: [bad indices]} (one coqc run)"""
     parts = [header, "From RV Require Import Base.Corr.", "Import ListNotations.", "Open Scope list_scope."]
-    for g, ty, chk, cases in groups:
+    for g, ty, chk, cases in pieces:
         parts.append(f"Definition cases_{g} : list ({ty}) := [\n  " + ";\n  ".join(cases) + "\n].")
         parts.append(f"Definition bad_{g} := Eval vm_compute in bad_indices ({chk}) cases_{g}.")
         parts.append(f"Print bad_{g}.")
@@ -136,10 +133,50 @@ def coq_bad_indices(prop: str, name: str, header: str, groups: list[tuple[str, s
     res = {}
     for m in _BAD_RE.finditer(out):
         res[m.group(1)] = [int(t) for t in re.findall(r"\d+", m.group(2).replace("%N", ""))]
-    for g, _, _, _ in groups:
+    for g, _, _, _ in pieces:
         if g not in res:
             raise CoqError(f"no result for group {g} in output of {name}.v:\n{out[-2000:]}")
     return res
+
+
+def coq_bad_indices(prop: str, name: str, header: str, groups: list[tuple[str, str, str, list[str]]],
+                    timeout: int = 900, chunk: int = 800, per_file: int = 4000, jobs: int = 10) -> dict[str, list[int]]:
+    """groups: (group_name, case_type, check_fun_term, [case literals]).
+    Evaluates  bad_indices check cases  by vm_compute and returns {group: indices i where check case_i = false}.
+    Long groups are cut into chunks (a list literal of several thousand elements overflows coqc's stack) and
+    the chunks are spread over several coqc processes.  Raises CoqError if a file does not compile
+    (a broken correspondence)."""
+    from concurrent.futures import ThreadPoolExecutor
+    pieces = []   # (label, group, offset, ty, chk, cases)
+    for g, ty, chk, cases in groups:
+        if not cases:
+            pieces.append((f"{g}_c0", g, 0, ty, chk, []))
+        for k, off in enumerate(range(0, len(cases), chunk)):
+            pieces.append((f"{g}_c{k}", g, off, ty, chk, cases[off:off + chunk]))
+    files, cur, cur_n = [], [], 0
+    for pc in pieces:
+        if cur and cur_n + len(pc[5]) > per_file:
+            files.append(cur)
+            cur, cur_n = [], 0
+        cur.append(pc)
+        cur_n += len(pc[5])
+    if cur:
+        files.append(cur)
+
+    def work(i):
+        fl = files[i]
+        return _coq_bad_one(prop, f"{name}_{i}" if len(files) > 1 else name, header,
+                            [(lab, ty, chk, cs) for lab, _, _, ty, chk, cs in fl], timeout)
+
+    out = {g: [] for g, _, _, _ in groups}
+    with ThreadPoolExecutor(max_workers=jobs) as ex:
+        results = list(ex.map(work, range(len(files))))
+    for fl, r in zip(files, results):
+        for lab, g, off, _, _, _ in fl:
+            out[g].extend(off + i for i in r[lab])
+    for g in out:
+        out[g].sort()
+    return out
 
 
 def chunked(xs, n):
@@ -410,6 +447,20 @@ def run_property(mod, tier: str, seed: int, replay: str | None = None) -> int:
         proofs_ok = False
         res.broke("hygiene grep", "\n".join(hy))
 
+    # 3b (thorough tier): independent re-check of the compiled theorems with coqchk, axioms listed with -o
+    coqchk_report = None
+    if tier == "thorough" and proofs_ok and getattr(mod, "COQCHK", True):
+        lib = "RV." + mod.PROPERTY_FILE.replace(".v", "").replace("/", ".")
+        with Lock():
+            p = subprocess.run(["timeout", "1500", "coqchk", "-o", "-silent", "-Q", str(COQ), "RV", lib],
+                               capture_output=True, text=True, cwd=str(COQ))
+        tail = (p.stdout + p.stderr)[-6000:]
+        coqchk_report = {"cmd": f"coqchk -o -silent -Q coq RV {lib}", "rc": p.returncode, "output_tail": tail}
+        checker_cmds.append(coqchk_report["cmd"])
+        if p.returncode != 0:
+            proofs_ok = False
+            res.broke("coqchk", tail)
+
     # 4: correspondence + oracle on the implementation
     try:
         mod.correspond(res)
@@ -489,7 +540,7 @@ def run_property(mod, tier: str, seed: int, replay: str | None = None) -> int:
         "traces_validated_against_impl": res.evaluations,
         "coq_case_files": res.case_lemmas, "coq_case_files_ok": res.case_ok,
         "known_findings_replayed": res.known_hits,
-        "broken": res.broken, "notes": res.notes,
+        "broken": res.broken, "notes": res.notes, "coqchk": coqchk_report,
     }
     write_evidence(prop, tier, seed, "proof", coverage, getattr(mod, "ASSUMPTIONS", []),
                    time.time() - t0, len(unlisted) + (1 if rc and not unlisted else 0))
